@@ -132,6 +132,9 @@ def post_allocs(entries, version='1.39'):
             tag['cgen'][c] = body[c]['consumer_generation']
             if int(version.split('.')[1]) < 38:
                 del body[c]['consumer_type']
+            if int(version.split('.')[1]) < 28:
+                del body[c]['consumer_generation']
+                del tag['cgen'][c]
         r = Req('POST', '/allocations', version, body)
         r['tag'] = tag
         return r
@@ -143,9 +146,11 @@ def delete_alloc(c):
 
 
 def reshape_move(src, rc, dst, how_src='cur', how_dst='cur',
-                 consumers_how='cur', also=None, how_also='cur', attrs=None):
+                 consumers_how='cur', also=None, how_also='cur', attrs=None,
+                 newc=None):
     """move inventory rc and its usage from src to dst; `also`: a third
-    provider listed with the inventory it already has."""
+    provider listed with the inventory it already has; `newc`: a consumer
+    that does not exist yet and gets one unit of rc on dst."""
     def b(d):
         cur = {}
         for (p, k), f in d.inventories.items():
@@ -176,6 +181,12 @@ def reshape_move(src, rc, dst, how_src='cur', how_dst='cur',
                                   'user_id': attrs[1],
                                   'consumer_type': attrs[2]})
             tag['cgen'][c] = allocs[c]['consumer_generation']
+        if newc is not None:
+            allocs[newc] = {'allocations': {dst: {'resources': {rc: 1}}},
+                           'project_id': 'pN', 'user_id': 'uN',
+                           'consumer_generation': None,
+                           'consumer_type': 'INSTANCE'}
+            tag['cgen'][newc] = None
         invs = {
             src: {'resource_provider_generation':
                   g_of(d, src, how_src), 'inventories': s_inv},
@@ -352,6 +363,28 @@ def scenarios_c05():
     out.append(('traits1|claim|del_inv',
                 {'A': writers['traits1']('cur'), 'B': derived['claim'],
                  'C': derived['del_inv']}))
+    # provider-writing requests that neither carry nor advance a generation
+    # (rename, re-parent): they read the provider in one transaction and
+    # write it in another
+    def rename(version='1.39', parent=Ellipsis):
+        def b(d):
+            body = {'name': 'renamed-E'}
+            if parent is not Ellipsis:
+                body['parent_provider_uuid'] = parent
+            return Req('PUT', '/resource_providers/%s' % E, version, body)
+        return b
+    for rn, rb in (('rename', rename()), ('rename 1.0', rename('1.0')),
+                   ('parent to C', rename(parent=C))):
+        for a in ('invs1', 'traits1', 'aggs1', 'inv', 'reshape'):
+            out.append(('%s|%s:cur' % (rn, a),
+                        {'A': rb, 'B': writers[a]('cur')}))
+        out.append(('%s|claim' % rn, {'A': rb, 'B': derived['claim']}))
+    out.append(('rename|invs1|invs2 (same gen)',
+                {'A': rename(), 'B': writers['invs1']('cur'),
+                 'C': writers['invs2']('cur')}))
+    out.append(('rename|traits1|inv (same gen)',
+                {'A': rename(), 'B': writers['traits1']('cur'),
+                 'C': writers['inv']('cur')}))
     return out
 
 
@@ -397,6 +430,17 @@ def scenarios_c06():
                  'B': reshape_move(R, 'VCPU', C,
                                    attrs=('proj-rs', 'user-rs',
                                           'RESHAPED'))}))
+    # a reshape that also names a consumer that does not exist yet, losing
+    # a provider-generation or consumer race after it has created it
+    for oname, ob in (
+            ('inventory of C', put_inv(C, 'CUSTOM_A', 'cur', {'total': 9})),
+            ('traits of R', put_traits(R, 'cur', ['CUSTOM_T1',
+                                                  'CUSTOM_UNUSED'])),
+            ('aggregates of C', put_aggs(C, 'cur', [A1])),
+            ('put K3 null', put_alloc(K3, a3, 'null', 'pB')),
+            ('put existing consumer', put_alloc(K1, a2, 'cur', 'pA'))):
+        out.append(('reshape creating K3 | %s' % oname, {
+            'A': reshape_move(R, 'VCPU', C, newc=K3), 'B': ob}))
     out.append(('existing: put-clear|put', {
         'A': put_alloc(K1, {}, 'cur', 'pA'),
         'B': put_alloc(K1, a1, 'cur', 'pB')}))
@@ -869,9 +913,13 @@ def judge(pid, scen_name, reqs, d0, result, serial, res, use_serial=True):
                     'allocations')
             else:
                 named = (body.get(c) or {}).get('allocations')
-            if not named:
+            if not named and not any(cc == c for (cc, _, _) in d0.allocs):
                 continue
+            # (a clearing write - nothing named - for a consumer that holds
+            # allocations removes them and the consumer: it is a write too)
             res.count('consumer_cas_checks')
+            if not named:
+                res.count('consumer_cas_checks_clearing')
             moved = any(
                 seq[i][1] == n and c in seq[i - 1][2].consumers and
                 seq[i - 1][2].consumers[c]['generation'] == cg and
@@ -1149,6 +1197,22 @@ def scenarios_delete():
     out.append(('trait delete vs provider traits naming it', {
         'A': _del('traits', 'CUSTOM_UNUSED'),
         'B': put_traits(E, 'cur', ['CUSTOM_UNUSED', 'CUSTOM_T1'])}))
+    # writers older than consumer generations (below 1.28) racing a creator
+    # of the same consumer: the old-format request that loses the creation
+    # race and is then refused (no room) changes nothing
+    out.append(('creator 1.27 refused for room | creator 1.39 typed', {
+        'A': put_alloc(K3, {E: {'VCPU': 400}}, 'null', 'pA',
+                       version='1.27'),
+        'B': put_alloc(K3, {R: {'VCPU': 1}}, 'null', 'pB',
+                       ctype='MIGRATION')}))
+    out.append(('creator 1.12 | creator 1.39 typed', {
+        'A': put_alloc(K3, {E: {'VCPU': 1}}, 'null', 'pA', version='1.12'),
+        'B': put_alloc(K3, {R: {'VCPU': 1}}, 'null', 'pB',
+                       ctype='MIGRATION')}))
+    out.append(('post 1.13 refused for room | creator 1.39 typed', {
+        'A': post_allocs({K3: ({E: {'VCPU': 400}}, 'null', 'pA')}, '1.13'),
+        'B': put_alloc(K3, {R: {'VCPU': 1}}, 'null', 'pB',
+                       ctype='MIGRATION')}))
     out.append(('delete vs rewrite vs claim', {
         'A': delete_alloc(K1),
         'B': put_alloc(K1, {E: {'VCPU': 2}}, 'cur'),
